@@ -181,6 +181,23 @@ def _run_case(case, st):
         if p.zombie:
             p.zombie = False
             p.wstatus = None
+    elif k == "excname":
+        # what psutil says the process is called is one thing: the name name() answered is the name its later errors carry
+        comm = case[1]
+        p.comm = comm
+        p.cmdline = comm + b"-daemon\0--x\0"
+        fresh = outcome(psutil.Process, p.pid)
+        pr2 = fresh[1]
+        nm = outcome(pr2.name)
+        want = fsd(comm) + "-daemon"
+        chk("extended-name", nm, nm == ("ok", want), want)
+        w.exit(p.pid)
+        for meth in ("cmdline", "cwd"):
+            got = outcome(getattr(pr2, meth))
+            if got[0] == "exc" and got[1] in ("ZombieProcess", "NoSuchProcess", "AccessDenied"):
+                chk("error-carries-another-name-than-name()-gave:%s" % got[1], got, got[2].get("name") == want, {"name": want})
+        p.zombie = False
+        p.wstatus = None
     elif k == "blockzombie":
         # inside ONE oneshot() block: a stat-backed answer first, then the process exits, then cmdline(): ZombieProcess, or what a
         # live process had (never the zombie's empty list, which was true of neither)
@@ -251,9 +268,13 @@ def _run_case(case, st):
             else:
                 argv = ref_cmdline(case[4], False)
                 guess = None
-                if argv and os.path.isabs(argv[0]) and argv[0] in w.nodes and w.nodes[argv[0]].kind == "f" \
-                        and w.nodes[argv[0]].mode != "noexec":
-                    guess = argv[0]
+                if argv and os.path.isabs(argv[0]):
+                    try:
+                        real0 = w.resolve(argv[0])
+                    except OSError:
+                        real0 = None
+                    if real0 in w.nodes and w.nodes[real0].kind == "f" and w.nodes[real0].mode != "noexec":
+                        guess = argv[0]
                 if link == "AD":
                     if guess is not None:
                         chk("exe-denied-guess", got, got == ("ok", guess), guess)
@@ -302,7 +323,7 @@ def _run_case(case, st):
 def run_case(case, st):
     # exe() is cached for the life of the object by the statement itself; a process that is made to vanish inside the case
     # leaves the object of later cases in a state the case did not set up
-    return LongLived.both(_run_case, case, st, skip=lambda c: (c[0] == "link" and (c[1] == "exe" or c[3] == "gone")) or c[0] in ("name", "midzombie", "blockzombie") or (c[0] == "longlink" and c[1] == "exe"), repoint=True)
+    return LongLived.both(_run_case, case, st, skip=lambda c: (c[0] == "link" and (c[1] == "exe" or c[3] == "gone")) or c[0] in ("name", "midzombie", "blockzombie", "excname") or (c[0] == "longlink" and c[1] == "exe"), repoint=True)
 
 
 def worker(chunk):
@@ -344,6 +365,8 @@ def build_cases(thorough):
             cases.append(("midzombie", what, kk))
     for first in ("ppid", "name", "status", "cpu_times", "create_time"):
         cases.append(("blockzombie", first))
+    for comm in (b"gnome-keyring-d", b"long-program-na"):
+        cases.append(("excname", comm))
     envs = [[]]
     for n in range(1, nmax + 2):
         envs += [list(c) for c in itertools.product(ENVS, repeat=n)]
@@ -353,7 +376,9 @@ def build_cases(thorough):
     cases.append(("environ", b""))
     targets = ["/bin/x", "/bin/x (deleted)", "/bin/y (deleted)", "/bin/x\0junk", "/bin/x (deleted)\0 (deleted)",
                "/tmp/a b", None, "/usr/bin/sed (deleted)", "/tmp/deleted (deleted)", "/opt/node (deleted)", "/x/a.out (deleted)"]
-    cmds = [b"/bin/x\0-a\0", b"x\0", b"/bin/noexec\0", b"/bin/dir\0", b"", b"/bin/missing\0", b"/bin/x -a"]
+    cmds = [b"/bin/x\0-a\0", b"x\0", b"/bin/noexec\0", b"/bin/dir\0", b"", b"/bin/missing\0", b"/bin/x -a",
+            # argv[0] as wrapper scripts produce it ($(dirname $0)/../bin/x): absolute, executable, not normalised -- returned as it is
+            b"/bin/../bin/x\0", b"/bin//x\0", b"/bin/./x\0", b"/bin/dir/../x\0"]
     for which in ("exe", "cwd"):
         for t in targets:
             for state in ("ok", "denied", "gone") + (("esrch",) if t is None else ()):
